@@ -514,6 +514,16 @@ func check(c Case) error {
 		if diff != "" && known.RE2IgnoreCaseNotWord("c06-re2-ignorecase-notword", c.AST, true, string(in)) {
 			continue
 		}
+		if diff != "" && hasBoundary && known.NonboundaryAtomic("c06-auto-atomic-nonboundary", func() bool {
+			cre2, err := compat.Compile(c.Pattern, regexp2.RE2)
+			if err != nil {
+				return false
+			}
+			cre2.Unwrap().MatchTimeout = 500 * time.Millisecond
+			return compare(gre, cre2, in, c.Ns) == ""
+		}) {
+			continue
+		}
 		if diff != "" {
 			red := c
 			red.Inputs = [][]byte{in}
